@@ -119,10 +119,11 @@ fn report(c: &C13Case) -> CaseReport {
         {
             let mut g = ctl.lock().unwrap();
             g.fault_at = vec![k];
-            g.fault_kind = KINDS[k as usize % KINDS.len()];
+            g.fault_kind = KINDS[(k as usize + case_hash as usize % 97) % KINDS.len()];
+            g.fault_side_effects = (k + (case_hash >> 16)) % 2 == 1;
             g.faults_enabled = true;
         }
-        let mut trace = vec![format!("fault at write-side call {} of {} ({:?})", k, n, KINDS[k as usize % KINDS.len()])];
+        let mut trace = vec![format!("fault at write-side call {} of {} ({:?}, side effects {})", k, n, KINDS[(k as usize + case_hash as usize % 97) % KINDS.len()], (k + (case_hash >> 16)) % 2 == 1)];
         rep.evaluations += 1;
         match run_write_script(c.version, c.max_buf, &c.script, &ctl, &mut trace) {
             Ok(s) => {
